@@ -560,6 +560,11 @@ impl<'g> Cx<'g> {
                 syn::Member::Named(id) => id.to_string(),
                 _ => return self.bail(fv.span(), "unsupported field"),
             };
+            if info.ignored.contains(&fname) {
+                // an ignored field (manifest): its initialiser is only evaluated for its effects
+                self.effects_only(&fv.expr, stmts)?;
+                continue;
+            }
             let fty = match info.fields.iter().find(|(n, _)| *n == fname) {
                 Some((_, t)) => t.clone(),
                 None => return self.bail(fv.span(), format!("unknown field `{}`", fname)),
@@ -842,7 +847,13 @@ impl<'g> Cx<'g> {
         let applied = format!("{}{}", self.fn_lean_name(&info), args);
         let (caller, ok_ty) = match (&info.ret, try_mode) {
             (Ty::Res(a, b), true) => (self.try_caller(b, info.err_state, std::slice::from_ref(&pl), m.span())?, (**a).clone()),
-            (Ty::Res(_, _), false) => return self.bail(m.span(), "a `Result` fn can only be called with `?` or in return position"),
+            (Ty::Res(_, _), false) => {
+                // the caller inspects the `Result`: the receiver keeps the state the callee leaves behind (Ok or Err)
+                let t = self.fresh();
+                stmts.push(Stmt::Bind(t.clone(), Doc::atom(format!("Exec.attempt ({})", applied))));
+                self.write(&pl, format!("{}.1", t), stmts)?;
+                return Ok(Some((format!("{}.2", t), info.ret.clone())));
+            }
             (_, true) => return self.bail(m.span(), "`?` on a call that does not return `Result`"),
             (t, false) => ("Exec.call".to_string(), t.clone()),
         };
@@ -1004,11 +1015,23 @@ impl<'g> Cx<'g> {
             }
         }
         let (term, info, places) = self.call_term(e, stmts)?;
-        if matches!(info.ret, Ty::Res(_, _)) {
-            return self.bail(e.span(), "a `Result` fn can only be called with `?` or in return position");
-        }
         if info.self_mode == SelfMode::Mut {
             return self.bail(e.span(), "`&mut self` method called on something that is not a place");
+        }
+        if matches!(info.ret, Ty::Res(_, _)) {
+            // the caller inspects the `Result` (`if let Err(e) = f(..)`, `match f(..) { Ok(x) => .., Err(e) => .. }`)
+            let t = self.fresh();
+            if info.err_state {
+                stmts.push(Stmt::Bind(t.clone(), Doc::atom(format!("Exec.attempt ({})", term))));
+                let n = places.len();
+                for (i, pl) in places.iter().enumerate() {
+                    let comp = if n == 1 { format!("{}.1", t) } else { Self::tuple_proj(&format!("{}.1", t), i, n) };
+                    self.write(pl, comp, stmts)?;
+                }
+                return Ok((format!("{}.2", t), info.ret.clone()));
+            }
+            stmts.push(Stmt::Bind(t.clone(), Doc::atom(format!("Exec.attemptPure ({})", term))));
+            return Ok((t, info.ret.clone()));
         }
         let ret = info.ret.clone();
         let v = self.finish_call("Exec.call", &term, &info, &places, &ret, stmts)?;
@@ -1261,6 +1284,24 @@ impl<'g> Cx<'g> {
             }
             self.tmp_reset(saved);
         }
+        // `map.insert(k, v)` used as a value: the old binding
+        if name == "insert" && m.args.len() == 2 && self.is_place(&m.receiver) {
+            let mut probe: Vec<Stmt> = Vec::new();
+            let saved = self.tmp_mark();
+            if let Ok(pl) = self.place(&m.receiver, &mut probe) {
+                if let Ty::Map(kt, vt, _) = pl.ty() {
+                    stmts.extend(probe);
+                    let (k, _) = self.expr(&m.args[0], Some(&kt), stmts)?;
+                    let (v, _) = self.expr(&m.args[1], Some(&vt), stmts)?;
+                    let cur = self.read(&pl, stmts)?;
+                    let t = self.fresh();
+                    stmts.push(Stmt::Let(t.clone(), format!("(RustSem.Map.find? {} {})", cur, k)));
+                    self.write(&pl, format!("(RustSem.Map.insert {} {} {})", cur, k, v), stmts)?;
+                    return Ok((t, Ty::Opt(vt)));
+                }
+            }
+            self.tmp_reset(saved);
+        }
         // `btree.pop_first()`: the first binding in key order, the place keeps the rest
         if name == "pop_first" && m.args.is_empty() && self.is_place(&m.receiver) {
             let pl = self.place(&m.receiver, stmts)?;
@@ -1374,6 +1415,12 @@ impl<'g> Cx<'g> {
             (Ty::List(_, _), "is_empty", 0) => Ok((format!("(RustSem.is_empty {})", r), Ty::Bool)),
             (Ty::List(e, _), "to_vec", 0) => Ok((r, Ty::List(e.clone(), ListKind::Vec))),
             (Ty::List(_, _), "clone" | "as_slice" | "as_ref", 0) => Ok((r, rt.clone())),
+            // `x.into()` on an unsigned integer: the same value (`I: Into<uN>` parameters, widening conversions)
+            (Ty::Int(w), "into", 0) => match exp {
+                Some(Ty::Int(w2)) if w2 >= w => Ok((r, Ty::Int(*w2))),
+                Some(Ty::Int(_)) => self.bail(whole.span(), "`.into()` to a narrower integer type"),
+                _ => Ok((r, Ty::Int(*w))),
+            },
             (Ty::List(e, k), "into", 0) => {
                 // identity conversions between byte containers only
                 match (exp, &**e) {
